@@ -14,7 +14,7 @@
    per change) and the theorems assume each is absent from its directory when used.
 
    ReceiveOpt.Merge is modelled here, ReceiveOpt.MetadataOnly in Model/RecvMeta.v.
-   Not modelled: ReceiveOpt.Filter / NotifyHashed (nil), Differ other than
+   ReceiveOpt.Filter: [rfilter] below.  Not modelled: NotifyHashed (nil), Differ other than
    DiffMetadata, DAC permission checks (the receiver runs as root), concurrency: the walk of
    the old destination is taken up front (see the note at [old_listing]). *)
 From Coq Require Import List NArith Bool.
@@ -303,8 +303,38 @@ Definition is_dead (st : rstate) : bool := match r_dead st with Some _ => true |
 Definition live (st : rstate) : bool := running st && negb (is_dead st).
 Definition default_tmp : bytes := [46; 116; 109; 112; 46; 48].   (* ".tmp.0" *)
 
-(* one HandleChange call issued by the diff (one effect), then AsyncDataCb bookkeeping *)
-Definition apply_change (c : ctx) (idx : nat) (kind : N) (p : bytes) (s : stat) (st : rstate) : rstate :=
+(* ReceiveOpt.Filter, the callback the receiver hands to the disk writer and to doubleWalkDiff:
+     diskwriter.go HandleChange:  delete: if !filter(p, &empty) { return nil }
+                                  add / modify: statCopy := stat.Clone(); if !filter(p, statCopy) { return nil };
+                                  everything after that uses statCopy
+     diff_containerd.go:          filter(f2.path, statCopy) before f2 is compared with the old entry
+                                  (sameFile); its answer is ignored there
+   [f_rej]: the paths it answers false for; [f_map]: what it does to the copy of the stat (the
+   generated filters shift uid and gid, as an id-mapping filter does).  The receive loop itself
+   (validators, ids, the metadata branch) does not consult the filter.  [no_filter] = nil. *)
+Record rfilter := { f_rej : bytes -> bool; f_map : stat -> stat }.
+Definition no_filter : rfilter := {| f_rej := fun _ => false; f_map := fun s => s |}.
+
+(* the filters of the correspondence run: reject the listed paths and everything below them,
+   add ua / ga to uid / gid of what passes (an id-mapping filter); [exact] = true: reject the
+   listed paths only *)
+Definition below_any (ps : list bytes) (p : bytes) : bool :=
+  existsb (fun q => bytes_eqb q p || has_prefix (q ++ [sep]) p) ps.
+Definition shift_ids (ua ga : N) (s : stat) : stat :=
+  {| st_path := st_path s; st_mode := st_mode s; st_uid := N.land (st_uid s + ua) 4294967295;
+     st_gid := N.land (st_gid s + ga) 4294967295; st_size := st_size s; st_mtime := st_mtime s;
+     st_linkname := st_linkname s; st_devmajor := st_devmajor s; st_devminor := st_devminor s;
+     st_xattrs := st_xattrs s |}.
+Definition subtree_filter (ps : list bytes) (ua ga : N) : rfilter :=
+  {| f_rej := below_any ps; f_map := shift_ids ua ga |}.
+Definition exact_filter (ps : list bytes) (ua ga : N) : rfilter :=
+  {| f_rej := fun p => existsb (bytes_eqb p) ps; f_map := shift_ids ua ga |}.
+
+(* one HandleChange call issued by the diff (one effect), then AsyncDataCb bookkeeping;
+   a change the filter rejects is no change (and no effect) *)
+Definition apply_change (fl : rfilter) (c : ctx) (idx : nat) (kind : N) (p : bytes) (s0 : stat) (st : rstate) : rstate :=
+  if f_rej fl p then st else
+  let s := if N.eqb kind 2 then s0 else f_map fl s0 in
   if negb (live st) then st else
   match spend st with
   | None => set_out st Halted
@@ -339,33 +369,33 @@ Definition rm_prefix_of (f1 : stat) : bytes := if st_is_dir f1 then st_path f1 +
 Definition suppressed (rm p : bytes) : bool := negb (is_nil rm) && has_prefix rm p.
 
 (* doubleWalkDiff fed with the next stream entry [f2]; [old] = unread old listing *)
-Fixpoint diff_feed (c : ctx) (idx : nat) (f2 : stat) (old : list stat) (st : rstate) : rstate :=
+Fixpoint diff_feed (fl : rfilter) (c : ctx) (idx : nat) (f2 : stat) (old : list stat) (st : rstate) : rstate :=
   match old with
-  | [] => apply_change c idx 0 (st_path f2) f2 (set_diff st [] [])
+  | [] => apply_change fl c idx 0 (st_path f2) f2 (set_diff st [] [])
   | f1 :: rest =>
     match compare_path (st_path f1) (st_path f2) with
     | Lt =>   (* delete f1 *)
-      if suppressed (r_rmdir st) (st_path f1) then diff_feed c idx f2 rest (set_diff st rest (r_rmdir st))
+      if suppressed (r_rmdir st) (st_path f1) then diff_feed fl c idx f2 rest (set_diff st rest (r_rmdir st))
       else
-        let st1 := apply_change c idx 2 (st_path f1) f1 (set_diff st rest (rm_prefix_of f1)) in
-        if live st1 then diff_feed c idx f2 rest st1 else st1
-    | Gt => apply_change c idx 0 (st_path f2) f2 (set_diff st old [])
+        let st1 := apply_change fl c idx 2 (st_path f1) f1 (set_diff st rest (rm_prefix_of f1)) in
+        if live st1 then diff_feed fl c idx f2 rest st1 else st1
+    | Gt => apply_change fl c idx 0 (st_path f2) f2 (set_diff st old [])
     | Eq =>
       let rm := if st_is_dir f1 && negb (st_is_dir f2) then st_path f1 ++ [sep] else [] in
       let st1 := set_diff st rest rm in
-      if same_file f1 f2 then st1 else apply_change c idx 1 (st_path f2) f2 st1
+      if same_file f1 (f_map fl f2) then st1 else apply_change fl c idx 1 (st_path f2) f2 st1
     end
   end.
 
 (* the stream ended: everything left in the old listing is deleted *)
-Fixpoint diff_flush (c : ctx) (idx : nat) (old : list stat) (st : rstate) : rstate :=
+Fixpoint diff_flush (fl : rfilter) (c : ctx) (idx : nat) (old : list stat) (st : rstate) : rstate :=
   match old with
   | [] => set_diff st [] (r_rmdir st)
   | f1 :: rest =>
-    if suppressed (r_rmdir st) (st_path f1) then diff_flush c idx rest (set_diff st rest (r_rmdir st))
+    if suppressed (r_rmdir st) (st_path f1) then diff_flush fl c idx rest (set_diff st rest (r_rmdir st))
     else
-      let st1 := apply_change c idx 2 (st_path f1) f1 (set_diff st rest (rm_prefix_of f1)) in
-      if live st1 then diff_flush c idx rest st1 else st1
+      let st1 := apply_change fl c idx 2 (st_path f1) f1 (set_diff st rest (rm_prefix_of f1)) in
+      if live st1 then diff_flush fl c idx rest st1 else st1
   end.
 
 Fixpoint mem_bytes (p : bytes) (l : list bytes) : bool :=
@@ -381,7 +411,7 @@ Definition hl_step (seen : list bytes) (s : stat) : option (list bytes) :=
   else Some (st_path s :: seen).
 
 (* a STAT packet with a stat: both validators, then dynamicWalker.update *)
-Definition recv_stat (c : ctx) (idx : nat) (s : stat) (st : rstate) : rstate :=
+Definition recv_stat (fl : rfilter) (c : ctx) (idx : nat) (s : stat) (st : rstate) : rstate :=
   let files := if mode_is_regular (st_mode s) then bset (st_path s) (r_next st) (r_files st) else r_files st in
   let st0 := set_valid st (r_vstk st) (r_seen st) files (r_next st + 1) in
   match vstep (r_vstk st) (item_of s) with
@@ -393,7 +423,7 @@ Definition recv_stat (c : ctx) (idx : nat) (s : stat) (st : rstate) : rstate :=
       let st1 := set_valid st0 v' seen' files (r_next st + 1) in
       if is_dead st1 && negb (r_closed st1) then set_out st1 (Failed idx)   (* "walker is closed" *)
       else if r_closed st1 then set_out st1 (Panicked idx)     (* send on the closed walker channel *)
-      else diff_feed c idx s (r_old st1) st1
+      else diff_feed fl c idx s (r_old st1) st1
     end
   end.
 
@@ -474,7 +504,7 @@ Definition maybe_wait (c : ctx) (dl : bool) (idx : nat) (st : rstate) : rstate :
     else st
   else st.
 
-Definition recv_packet (c : ctx) (dl : bool) (idx : nat) (pk : packet) (st : rstate) : rstate :=
+Definition recv_packet (fl : rfilter) (c : ctx) (dl : bool) (idx : nat) (pk : packet) (st : rstate) : rstate :=
   if negb (running st) then st else
   maybe_wait c dl idx
     match pk with
@@ -484,15 +514,15 @@ Definition recv_packet (c : ctx) (dl : bool) (idx : nat) (pk : packet) (st : rst
     | PStat None =>
       if r_closed st then set_out st (Panicked idx)      (* close of a closed channel *)
       else if is_dead st then set_out st (Failed idx)    (* "walker is closed" *)
-      else diff_flush c idx (r_old st) (set_flags st true (r_waited st))
-    | PStat (Some s) => recv_stat c idx s st
+      else diff_flush fl c idx (r_old st) (set_flags st true (r_waited st))
+    | PStat (Some s) => recv_stat fl c idx s st
     | PData id d => recv_data c idx id d st
     end.
 
-Fixpoint recv_loop (c : ctx) (dl : bool) (idx : nat) (pks : list packet) (st : rstate) : rstate :=
+Fixpoint recv_loop (fl : rfilter) (c : ctx) (dl : bool) (idx : nat) (pks : list packet) (st : rstate) : rstate :=
   match pks with
   | [] => st
-  | pk :: r => recv_loop c dl (S idx) r (recv_packet c dl idx pk st)
+  | pk :: r => recv_loop fl c dl (S idx) r (recv_packet fl c dl idx pk st)
   end.
 
 Definition rstate_init (f : fs) (d0 : N) (merge : bool) (tmps : list bytes) (budget : option nat) : rstate :=
@@ -504,8 +534,11 @@ Definition rstate_init (f : fs) (d0 : N) (merge : bool) (tmps : list bytes) (bud
    [dest] itself names a symlink to [d0]; [merge]: ReceiveOpt.Merge (the old content of the
    destination is not walked: nothing is deleted, every entry of the stream is handed to the
    disk writer) *)
+Definition recv_run_f (fl : rfilter) (f : fs) (root d0 : N) (dl merge : bool) (tmps : list bytes) (pks : list packet)
+                      (budget : option nat) : rstate :=
+  recv_loop fl {| c_root := root; c_cwd := d0 |} dl 0 pks (rstate_init f d0 merge tmps budget).
 Definition recv_run (f : fs) (root d0 : N) (dl merge : bool) (tmps : list bytes) (pks : list packet) (budget : option nat) : rstate :=
-  recv_loop {| c_root := root; c_cwd := d0 |} dl 0 pks (rstate_init f d0 merge tmps budget).
+  recv_run_f no_filter f root d0 dl merge tmps pks budget.
 
 Definition recv_fs (f : fs) (root d0 : N) (dl merge : bool) (tmps : list bytes) (pks : list packet) : rstate :=
   recv_run f root d0 dl merge tmps pks None.
